@@ -343,7 +343,12 @@ MQ_ = "happysimulator/components/messaging/message_queue.py"
 GC_ = "happysimulator/components/infrastructure/garbage_collector.py"
 CAN_ = "happysimulator/components/deployment/canary_deployer.py"
 DB_ = "happysimulator/components/datastore/database.py"
+PC_ = "happysimulator/components/client/pooled_client.py"
+CP_ = "happysimulator/components/client/connection_pool.py"
 MUTANTS = [
+    ("pooled-client-release-events-returned-after-retry-wait", PC_, ["            yield delay, release_events\n", "            return [retry_event]\n"], ["            yield delay\n", "            return [retry_event] + release_events\n"], "C07-1"),
+    ("pool-warmup-returns-idle-checks-at-the-end", CP_, ['        """Create minimum connections."""\n        while self._total_connections', "            yield 0.0, [timeout_event]\n", "        return None\n\n    def _handle_idle_timeout"],
+     ['        """Create minimum connections."""\n        events = []\n        while self._total_connections', "            events.append(timeout_event)\n", "        return events if events else None\n\n    def _handle_idle_timeout"], "C07-1"),
     ("db-connection-poll-can-be-zero", DB_, "        while not acquired[0]:\n            yield 0.01  # Poll interval\n", "        poll_interval = min(0.01, self._connection_latency)\n        while not acquired[0]:\n            yield poll_interval\n", "C07-3"),
     ("warmer-pause-minus-fetch-time", "happysimulator/components/datastore/cache_warming.py", "            yield inter_key_delay\n", "            yield inter_key_delay - self._fetch_latency_s\n", "C07-8"),
     ("wal-wait-without-guard", "happysimulator/components/storage/wal.py", "        elif self.now.nanoseconds < self._sync_busy_until_ns:\n", "        else:\n", "C07-8"),
